@@ -124,7 +124,7 @@ def moduli(ring, lo, hi, rng, tier):
         ms = sorted({m for m in ms if is_prime(m)} | {prevprime(hi + 1)})
     if ring == "mont32":                       # B = 2^16 must be invertible mod p
         ms = [m for m in ms if m % 2 == 1]
-    nkeep = 9 if tier == "quick" else 40
+    nkeep = 9 if tier == "quick" else 30
     if len(ms) > nkeep:
         keep = set(ms[:3]) | set(ms[-3:])
         rest = [m for m in ms if m not in keep]
@@ -405,7 +405,7 @@ def run_impl(binary, lines, timeout=600):
 
 def gen_cases(rings, cards, rng, tier):
     quick = tier == "quick"
-    nrand = 3 if quick else 40
+    nrand = 3 if quick else 20
     cases = []     # (op, ring, src, p, k, x)
     for ring in rings:
         if ring not in cards:
